@@ -51,4 +51,89 @@ theorem dispatch_cases (o : Options) (args : List String) (w : World) :
   unfold dispatch defaultDispatch
   cases o.fmt <;> cases o.vars <;> cases o.clean <;> cases o.show <;> cases w.hasClean <;> cases args <;> simp
 
+/-- what the `switch` can write: the spokfile under `--fmt`, the cache, or (under `--clean`) declared outputs -/
+theorem dispatch_writes (o : Options) (args : List String) (w : World) (d : Write) (hd : d ∈ writes (dispatch o args w)) :
+    (d = ⟨.spokfile, .modify⟩ ∧ o.fmt = true ∧ dispatch o args w = .fmt) ∨ d.target = .cache ∨
+    (d = ⟨.outputs, .delete⟩ ∧ o.clean = true ∧ dispatch o args w = .clean) := by
+  rcases dispatch_cases o args w with ⟨h1, h⟩ | ⟨_, _, h⟩ | ⟨_, _, hc, h | h⟩ | ⟨_, _, _, _, h⟩ | ⟨_, _, _, _, _, h⟩ | ⟨_, _, _, _, _, h⟩
+  all_goals rw [h] at hd ⊢
+  all_goals (try (unfold defaultDispatch at hd; split at hd))
+  all_goals simp_all [writes]
+  all_goals (try (rcases hd with rfl | rfl <;> simp))
+
+/-- a task is not ok exactly when one of its commands has a non-zero status -/
+theorem not_ok_iff (r : Result) : r.ok = false ↔ ∃ c ∈ r.cmds, c.status ≠ 0 := by
+  simp [Result.ok, CmdResult.ok, List.all_eq_false]
+
+/-- the loop finds the FIRST failing task: everything before it is ok, it is not, and it is the one named -/
+theorem firstFailing_spec (rs : List Result) (h : ∃ r ∈ rs, ∃ c ∈ r.cmds, c.status ≠ 0) :
+    ∃ pre r post c, rs = pre ++ r :: post ∧ (∀ p ∈ pre, p.ok = true) ∧ r.ok = false ∧
+      c ∈ r.cmds ∧ c.status ≠ 0 ∧ firstFailing rs = some (r.task, c) := by
+  induction rs with
+  | nil => obtain ⟨r, hr, _⟩ := h; cases hr
+  | cons r rs ih =>
+    cases hok : r.ok with
+    | false =>
+      obtain ⟨c, hc, hn⟩ := (not_ok_iff r).mp hok
+      cases hf : r.cmds.find? (fun c => !c.ok) with
+      | none =>
+        have := List.find?_eq_none.mp hf c hc
+        simp [CmdResult.ok] at this
+        exact absurd this hn
+      | some c' =>
+        refine ⟨[], r, rs, c', rfl, by simp, hok, List.mem_of_find?_eq_some hf, ?_, ?_⟩
+        · have := List.find?_some hf
+          simpa [CmdResult.ok] using this
+        · simp [firstFailing, hok, hf]
+    | true =>
+      have h' : ∃ r' ∈ rs, ∃ c ∈ r'.cmds, c.status ≠ 0 := by
+        obtain ⟨r', hr', c, hc, hn⟩ := h
+        cases hr' with
+        | head =>
+          have : r.ok = false := (not_ok_iff r).mpr ⟨c, hc, hn⟩
+          rw [hok] at this; cases this
+        | tail _ hm => exact ⟨r', hm, c, hc, hn⟩
+      obtain ⟨pre, r', post, c, he, hpre, hr', hc, hn, hf⟩ := ih h'
+      refine ⟨r :: pre, r', post, c, by simp [he], ?_, hr', hc, hn, ?_⟩
+      · intro p hp
+        cases hp with
+        | head => exact hok
+        | tail _ hm => exact hpre p hm
+      · simp [firstFailing, hok, hf]
+
+/-- all commands succeeded: the loop of `runTasks` finds nothing -/
+theorem firstFailing_none (rs : List Result) (hok : ∀ r ∈ rs, ∀ c ∈ r.cmds, c.status = 0) : firstFailing rs = none := by
+  induction rs with
+  | nil => rfl
+  | cons r rs ih =>
+    have hr : r.ok = true := by
+      simp only [Result.ok, List.all_eq_true, CmdResult.ok, beq_iff_eq]
+      intro c hc; exact hok r (by simp) c hc
+    simp only [firstFailing, hr, if_true]
+    exact ih (fun r' hr' => hok r' (by simp [hr']))
+
+theorem optMap_map {α β γ} (f : β → Option γ) (g : α → β) (h : α → γ) (hf : ∀ x, f (g x) = some (h x)) (xs : List α) :
+    optMap f (xs.map g) = some (xs.map h) := by
+  induction xs with
+  | nil => rfl
+  | cons x xs ih => simp [optMap, hf, ih]
+
+theorem decodeCmd_cmdJson (c : CmdResult) : decodeCmd (cmdJson c) = some c := by
+  simp [decodeCmd, cmdJson, field]
+
+theorem decodeResult_resultJson (r : Result) : decodeResult (resultJson r) = some r := by
+  obtain ⟨t, cs, s⟩ := r
+  cases cs with
+  | nil => simp [decodeResult, resultJson, field]
+  | cons c cs =>
+    have := optMap_map decodeCmd cmdJson id decodeCmd_cmdJson (c :: cs)
+    simp only [List.map_id_fun, id_eq, List.map_cons] at this
+    simp [decodeResult, resultJson, field, this]
+
+theorem byName_trans (a b c : String × String) : byName a b = true → byName b c = true → byName a c = true := by
+  simp only [byName, decide_eq_true_eq]; exact String.le_trans
+
+theorem byName_total (a b : String × String) : (byName a b || byName b a) = true := by
+  simp only [byName, Bool.or_eq_true, decide_eq_true_eq]; exact String.le_total a.1 b.1
+
 end Spok.App
